@@ -9,6 +9,7 @@ def plan(tier):
     conds = [Cond(B, "thumbprint", "main", T * 2, "hash input = sorted required members, compact JSON, chosen digest; same for private/public, any member order, optional members; kid = thumbprint iff absent"),
              Cond(B, "kid_rules", "main", T, "ensure_kid / KeySet / generate_key(auto_kid): a present kid (even empty) is never overwritten; appended keys export their own kid"),
              Cond(B, "set_export_import", "main", T, "every key in a set has a kid"),
+             Cond(B, "import_export", "main", T, "exports (also with override parameters such as kid=...) hand out copies: the key's kid and members stay as they were"),
              Cond(B, "witness", "witness", 120)]
     curves = ["P-256", "P-521"] if q else ["P-256", "P-384", "P-521", "secp256k1"]
     obls = [Obl("vlib.props.c11", "ec_export", {"crv": c, "private": p}, "generated / PEM-loaded EC keys export RFC-length coordinates, so their thumbprint equals that of the conformant JWK", 900)
